@@ -10,7 +10,7 @@ import wave as _wave
 
 import z3
 
-from ..engine import explore, S
+from ..engine import explore, S, Unsupported
 from ..values import SymBytes, SymInt, SymRat, SymBool, slice_goal, toint, tobool
 from ..stubs import iostub
 from .. import loader
@@ -230,6 +230,75 @@ def file_harness(L, kind, sw, ch, sr, KF):
     return path
 
 
+def ms_setter_fp_harness(iom, rate, bits):
+    """bit-exact side of `position_ms = m`: the real setter computes int(rate*m/1000) in doubles.  rate*m is an exact Python
+    int; for |rate*m| <= 2**bits (< 2**53, so it converts exactly) the truncated double quotient must be the exact truncated
+    quotient.  Decided by cvc5 (QF_FP); z3 returns unknown on this lemma."""
+    import z3 as _z3
+    from ..fp import SymFP, SymFPInt, F, RNE, fpv
+
+    class Capture(iom.BufferAudioSource):
+        captured = None
+
+        @property
+        def position(self):
+            return 0
+
+        @position.setter
+        def position(self, value):
+            Capture.captured = value
+
+    class Ms:
+        """stands for the int `m`: rate * m is the exact integer X (an integral double), nothing else is allowed"""
+        __sx_proxy__ = True
+
+        def __init__(self, X):
+            self.X = X
+
+        def __sx_isinstance__(self, Ts):
+            return True if int in Ts else None
+
+        def __rmul__(self, o):
+            if o == rate:
+                return SymFPInt(self.X)
+            raise Unsupported("unexpected arithmetic on position_ms")
+        __mul__ = __rmul__
+
+    def path(e):
+        X = _z3.FP("X", F)
+        lim = fpv(float(2 ** bits))
+        e.add(_z3.And(_z3.fpEQ(X, _z3.fpRoundToIntegral(RNE, X)), _z3.fpGEQ(X, _z3.fpNeg(lim)), _z3.fpLEQ(X, lim)))
+        src = Capture(b"", rate, 1, 1)
+        Capture.captured = None
+        try:
+            src.position_ms = Ms(X)
+        except Exception as ex:
+            return {"status": "unsupported", "why": "setter raised %s: %s" % (type(ex).__name__, str(ex)[:60])}
+        t = Capture.captured
+        if not isinstance(t, SymFP):
+            return {"status": "unsupported", "why": "setter no longer computes the sample index in floating point (%s)" % type(t).__name__}
+        rem = _z3.fpSub(RNE, X, _z3.fpMul(RNE, fpv(1000.0), t.t))
+        goal = _z3.And(_z3.fpEQ(t.t, _z3.fpRoundToIntegral(_z3.RTZ(), t.t)),
+                       _z3.If(_z3.fpGEQ(X, fpv(0.0)), _z3.And(_z3.fpGEQ(rem, fpv(0.0)), _z3.fpLT(rem, fpv(1000.0))),
+                              _z3.And(_z3.fpLEQ(rem, fpv(0.0)), _z3.fpGT(rem, fpv(-1000.0)))))
+        r = e.second_opinion(goal, tlimit_ms=900000)
+        e.stats["queries"] += 1
+        e.stats["q_" + (r if r in ("sat", "unsat") else "unknown")] += 1
+        if r == "unsat":
+            return {"status": "ok", "solver": "cvc5", "range": "|rate*ms| <= 2**%d" % bits}
+        if r == "sat":
+            return {"status": "unknown", "why": "cvc5 reports a counterexample to the exact-truncation lemma for |rate*ms| <= 2**%d (not replayed)" % bits}
+        return {"status": "unknown", "why": "cvc5: %s for |rate*ms| <= 2**%d" % (r, bits)}
+    return path
+
+
+_FPJOB = None
+
+
+def _fp_job(bits):
+    return explore(ms_setter_fp_harness(_FPJOB, 16000, bits), workers=1, path_wall_s=1000, deadline_s=1100)
+
+
 def tok_cex(e, why, D, trace, args, sw, ch, sr, p0=None, is_open=None, kind="buffer"):
     m = e.model()
     if m is None:
@@ -419,6 +488,13 @@ def run(rep):
     rep.assumptions = ["I/O stubs: read(k) returns exactly min(k, remaining) bytes and b'' at end; wave.readframes(-1) returns all remaining frames",
                        "position_s / position_ms: float arithmetic idealised as exact rationals (int(rate*ms/1000) bit-exactness is outside the claim)"]
     rep.outside = ["PyAudioSource (microphone)", "IEEE rounding in the seconds/milliseconds setters", "stdin with None/negative sizes (the statement excludes them)"]
+    # bit-exact arithmetic of the milliseconds setter (extra evidence; cvc5 decides, z3 does not): runs beside the rest
+    global _FPJOB
+    _FPJOB = iom
+    import multiprocessing as mp
+    widths = (24,) if tier == "quick" else (32, 40, 49)
+    fppool = mp.get_context("fork").Pool(len(widths))
+    fpres = fppool.map_async(_fp_job, widths)
     for (sw, ch) in byt.fmts(tier)[:3]:
         for sr in byt.rates(tier)[:2]:
             hn = "buffer[sw=%d,ch=%d,sr=%d,K=%d]" % (sw, ch, sr, b["K"])
@@ -431,3 +507,11 @@ def run(rep):
             ex = explore(file_harness(L, kind, sw, ch, 10, b["KF"]))
             rep.add_exploration(hn, ex)
             tok.handle_cex(rep, hn, ex, replay_fn)
+    exs = fpres.get()
+    fppool.terminate()
+    for bits, ex in zip(widths, exs):
+        rep.add_exploration("position_ms-exact[|rate*ms|<=2^%d]" % bits, ex)
+        for r in ex.results:
+            if r["status"] == "unknown":
+                rep.inconclusive.append("position_ms exactness for 2^%d: %s" % (bits, r.get("why")))
+    rep.bounds["position_ms bit-exact"] = "int(rate*ms/1000) equals the exact truncated quotient for every |rate*ms| <= 2^%s (cvc5, QF_FP)" % (list(widths),)
